@@ -67,6 +67,17 @@ func Start(n int) *Buf { return alloc(n, false, 0) }
 // EndCap returns a slice of length n and capacity n+spare whose capacity ends at an inaccessible page.
 func EndCap(n, spare int) *Buf { return alloc(n, true, spare) }
 
+// OverCap gives B a capacity that reaches `over` bytes INTO the inaccessible page behind it (the length is unchanged): the shape
+// of a slice cut from a larger mapping whose rest is not accessible. A callee may read an input only up to its length, whatever
+// capacity the slice header advertises. Only meaningful for buffers made with End.
+func (g *Buf) OverCap(over int) *Buf {
+	if len(g.B) == 0 {
+		return g
+	}
+	g.B = unsafe.Slice(&g.B[0], len(g.B)+over)[:len(g.B)]
+	return g
+}
+
 // Fill copies src into the buffer (len(src) must equal the allocated length).
 func (g *Buf) Fill(src []byte) *Buf {
 	if len(src) != g.n {
